@@ -369,5 +369,23 @@ func propC20(c *Ctx) {
 		if nRed == 0 {
 			o.Fail(c.W.Pos(fn.Pos()), "no path returns ErrRedundantTx", nil)
 		}
+		// each check mode alone activates the filter
+		chkAlone, rechkAlone := false, false
+		for _, p := range c.Paths(fn, po) {
+			if len(p.Find(func(ev *Event) bool { return ev.Kind == EvCall && strings.HasSuffix(ev.Call.Name, "MsgServer).FinalizeTokenDeposit") })) == 0 {
+				continue
+			}
+			chk := p.HasFact(len(p.Events), func(a *Term, pol bool) bool { return pol && a.Key() == "(sdk.Context).IsCheckTx(ctx)" })
+			rechk := p.HasFact(len(p.Events), func(a *Term, pol bool) bool { return pol && a.Key() == "(sdk.Context).IsReCheckTx(ctx)" })
+			if chk && !rechk {
+				chkAlone = true
+			}
+			if rechk && !chk {
+				rechkAlone = true
+			}
+		}
+		if !chkAlone || !rechkAlone {
+			o.Fail(c.W.Pos(fn.Pos()), fmt.Sprintf("the filter is not activated by CheckTx alone [%v] and by ReCheckTx alone [%v] (and/or slip in the mode gate)", chkAlone, rechkAlone), nil)
+		}
 	})
 }
